@@ -8,6 +8,7 @@ package harness
 import (
 	"context"
 	"fmt"
+	"runtime"
 	"sync"
 	"testing"
 	"time"
@@ -27,12 +28,18 @@ type c05cCase struct {
 	Order    []int     `json:"order"`
 	Yields   yieldList `json:"yields"`
 	Hold     []bool    `json:"hold,omitempty"` // worker i keeps the first token it is granted until all workers are done (the strategy stays close to full)
+	// Stall: yields taken by the k-th update right where it reaches the strategy (consumed only there): a long stall lets
+	// the other workers complete a whole further window, update included, before this update is applied
+	Stall yieldList `json:"stall,omitempty"`
 }
 
 type yieldStrategy struct {
 	inner core.Strategy
 	sc    *sched
 	after func(n int) // called right after the inner SetLimit(n) returned
+	stall yieldList
+	mu    sync.Mutex
+	k     int
 }
 
 func (y *yieldStrategy) TryAcquire(ctx context.Context) (core.StrategyToken, bool) {
@@ -40,6 +47,16 @@ func (y *yieldStrategy) TryAcquire(ctx context.Context) (core.StrategyToken, boo
 }
 func (y *yieldStrategy) SetLimit(n int) {
 	y.sc.Point("strategy.setlimit")
+	y.mu.Lock()
+	st := 0
+	if y.k < len(y.stall) {
+		st = int(y.stall[y.k])
+	}
+	y.k++
+	y.mu.Unlock()
+	for i := 0; i < st; i++ {
+		runtime.Gosched()
+	}
 	y.inner.SetLimit(n)
 	if y.after != nil {
 		y.after(n)
@@ -64,6 +81,7 @@ func genC05C(t *rapid.T) c05cCase {
 	}
 	c.Cycles = rapid.IntRange(12, 40).Draw(t, "cycles")
 	c.Order = rapid.Permutation(seq(c.Workers)).Draw(t, "order")
+	c.Stall = yieldList(rapid.SliceOfN(rapid.SampledFrom([]uint8{0, 0, 3, 40, 120, 250}), 0, 12).Draw(t, "stall"))
 	c.Yields = yieldList(rapid.SliceOfN(rapid.SampledFrom([]uint8{0, 0, 0, 0, 1, 1, 2, 3, 6, 40}), 0, 200).Draw(t, "yields")) // 40: long enough for the other workers to complete a whole further window
 	return c
 }
@@ -91,7 +109,7 @@ func runC05C(_ *testing.T, c c05cCase) kit.Outcome {
 	var staleMu sync.Mutex
 	stale := ""
 	refusedFull := false
-	ys := &yieldStrategy{inner: inner, sc: sc}
+	ys := &yieldStrategy{inner: inner, sc: sc, stall: c.Stall}
 	raisedWhileFull := false
 	lastApplied := 8
 	ys.after = func(n int) {
